@@ -367,3 +367,61 @@ def clear_audit(ps_list, accepted):
             bad.append('line %s: PyErr_Clear() after `%s` failed'
                        % (e.node.line if e.node is not None else '?', (failed or '?')[:60]))
     return sorted(set(bad)), n
+
+
+def generations_tuple(u):
+    """_generations_tuple(ro): a new tuple of PyTuple_GET_SIZE(ro) slots; the
+    generation of ro[i] is stored at i; the tuple is returned only when the
+    index ran past the end; a failing attribute read returns NULL."""
+    probs = []
+    kinds = set()
+    L = 'PyTuple_GET_SIZE(ro)'
+    T = 'PyTuple_New(%s)' % L
+    for ps in returning(S(u, '_generations_tuple')):
+        r = ret(ps)
+        new = fact(ps, T)
+        if new is None:
+            probs.append('result tuple is not PyTuple_New(PyTuple_GET_SIZE(ro))')
+            continue
+        if not new:
+            if r != 'NULL':
+                probs.append('allocation failure returns %s' % r)
+            continue
+        gets = calls(ps, 'PyObject_GetAttr')
+        sets = calls(ps, 'PyTuple_SET_ITEM')
+        tests = [(k, t) for k, t, p in ps.order if k.endswith('< %s)' % L)]
+        if not tests:
+            probs.append('no bound test against the size of ro')
+            continue
+        want = ['(0 < %s)' % L, '(1 < %s)' % L]
+        if [k for k, t in tests] != want[:len(tests)]:
+            probs.append('bound tests %s (required index 0, 1, ... against the size '
+                         'of ro)' % [k[:30] for k, t in tests])
+        if gets:
+            if len(gets) != 1 or args_of(gets[0]) != ['PyTuple_GET_ITEM(ro, 0)', 'str_generation']:
+                probs.append('reads %s' % [show(g.e)[:60] for g in gets])
+                continue
+            G = show(gets[0].e)
+            got = fact(ps, G)
+            if got is False:
+                kinds.add('error')
+                if r != 'NULL' or sets:
+                    probs.append('failed generation read: returns %s' % r[:30])
+                continue
+            if len(sets) != 1 or args_of(sets[0]) != [T, '0', G]:
+                probs.append('generation of ro[i] not stored at i: %s'
+                             % [show(x.e)[:70] for x in sets])
+                continue
+            kinds.add('filled')
+        else:
+            kinds.add('empty')
+            if sets:
+                probs.append('stores without reading a generation')
+        if r != 'NULL':
+            if r != T:
+                probs.append('returns `%s`' % r[:50])
+            if tests[-1][1]:
+                probs.append('returns before the index ran past the end')
+    if not probs and kinds != {'error', 'filled', 'empty'}:
+        probs.append('path kinds %s' % sorted(kinds))
+    return probs
